@@ -18,7 +18,7 @@ ISOLATE_SHARDS = True        # every shard runs in a forked child of a pristine 
 RULE = ("BFS over canonical session states (alive, registered?, #open connections, tag store), every frame of a 30-frame alphabet "
         "from every state; all frame sequences up to length N in two deliveries; pipelined runs k=1..64. non-trivial = distinct "
         "(state, frame) / sequences containing a failing or session-ending frame or a write")
-BOUNDS = {"quick": "closure of the state graph (<= 2 open connections); all sequences of length <= 2 over 30 frames + length 3 over a 10-frame "
+BOUNDS = {"quick": "closure of the state graph (<= 2 open connections); all sequences of length <= 2 over 30 frames + length 3 over a 16-frame "
                    "sub-alphabet, x {one per recv, coalesced}; runs k in {1,2,3,8,64}",
           "thorough": "closure; all sequences of length <= 3 over 30 frames, length 4 over the 8-frame sub-alphabet; runs k = 1..64"}
 ASSUMPTIONS = ["requests forwarded through a [UCMM] Route entry: the other device is a scripted transport that answers Register and each "
@@ -40,6 +40,7 @@ KINDS = [
     "read_wrong_session", "unregister",
 ]
 SUB10 = ["register", "read_ok", "write_v1", "write_type", "bundle2", "unknown_service", "fwd_open", "unit_read", "bad_command", "unregister"]
+SUB16 = SUB10 + ["unknown_tag", "gas_bad_attribute", "unit_write", "fwd_close", "read_range", "write_unholdable"]
 SUB8 = ["register", "read_ok", "write_v1", "unknown_tag", "fwd_open", "unit_write", "fwd_close", "unregister"]
 
 
@@ -637,8 +638,9 @@ def run(ctx):
         for first in KINDS:
             items.append(("seqs", first, KINDS, 1))
             items.append(("seqs", first, KINDS, 2))
-        for first in SUB10:
-            items.append(("seqs", first, SUB10, 3))
+        for first in SUB16:
+            for second in SUB16:
+                items.append(("seqs3y", first, second))
         ks = [1, 2, 3, 8, 64]
     else:
         for first in KINDS:
@@ -667,9 +669,9 @@ def run(ctx):
 
 
 def shard2(acc, item, tier, seed):
-    if item[0] == "seqs3x":
+    if item[0] in ("seqs3x", "seqs3y"):
         _, first, second = item
-        for third in KINDS:
+        for third in (KINDS if item[0] == "seqs3x" else SUB16):
             kinds = (first, second, third)
             seq = tuple((k, i % len(CTX)) for i, k in enumerate(kinds))
             acc.ev()
